@@ -86,6 +86,7 @@ def write_evidence(rep, binfo, level_rule, trusted, assumptions):
             'coqchk': binfo.get('coqchk', 'not run in the quick tier'),
             'translator': binfo.get('translate', ''),
             'translator_cross_check': binfo.get('tablecheck', []),
+            'function_translator': binfo.get('translate_fns', ''),
             'build_errors_outside_cone': binfo.get('errors_outside_cone', []),
             'cone': binfo['cone'],
             'evaluations': rep.evaluations,
